@@ -123,7 +123,7 @@ PROPS = {
         "module": "core", "pkg": "./checks", "level": "exploration",
         "jobs": [
             {"test": "TestC07Honest", "quick": 700, "thorough": 40000, "shards_thorough": 14},
-            {"test": "TestC07Byz", "quick": 500, "thorough": 40000, "shards_thorough": 14},
+            {"test": "TestC07Byz", "quick": 1100, "thorough": 40000, "shards_thorough": 14},
         ],
         "rule": "disc.Member instances on the simulated network under virtual time: universe of 2..8 configured members with identifiers over the "
                 "full 16-bit range (boundary-biased), honest participant subset, expected count (>= 2), 1..3 topics in parallel on one Member, probe "
